@@ -4,9 +4,14 @@ import json, os
 ROOT = os.path.dirname(os.path.dirname(os.path.abspath(__file__)))
 
 # id -> (category, technique, level text, level note, design ref)
+
+# properties whose thorough tier also runs the structured libFuzzer target (fuzz/fuzz_targets/strat.rs)
+STRAT = ["C01", "C02", "C05", "C06", "C07", "C08", "C09", "C10", "C15", "C17", "C18", "C19"]
+STRAT_TECH = "; thorough tier adds coverage-guided structured fuzzing (libFuzzer, input bytes decoded into the property's case, same oracle)"
+STRAT_TEXT = " Thorough additionally runs a coverage-guided libFuzzer campaign whose input is decoded by a hand-written data provider into this property's case and judged by the same oracle."
 CHECKS = {
  "C01": ("exploration", "property-based testing (proptest): round trip + suffix metamorphic relation over constructed well-formed messages",
-         "Seeded random search with shrinking over well-formed messages built by construction (all 32 header-flag combinations, every message-type family, every payload kind, every argument kind/width/coding, boundary lengths up to 65535) x two suffixes; the crate's serialisation is parsed back and compared field for field (floats by bits), the remainder must be exactly the suffix. Absence of a counter-example in 40k (quick) / 1M (thorough) generated cases, not a proof.",
+         "Seeded random search with shrinking over well-formed messages built by construction (all 32 header-flag combinations, every message-type family, every payload kind, every argument kind/width/coding, boundary lengths up to 65535) x two suffixes; the crate's serialisation is parsed back and compared field for field (floats by bits), the remainder must be exactly the suffix. Absence of a counter-example in 200k (quick) / 3M (thorough) generated cases, not a proof.",
          "Trusts the generator's notion of 'well-formed' (DESIGN.md 3.1, taken clause by clause from the quantifier) and the structural comparator; errors made consistently in writer and reader are C02's job.", "DESIGN.md 4/C01"),
  "C02": ("exploration", "differential testing against an independently written reference codec (proptest grid + random + hostile bytes; libFuzzer in the thorough tier)",
          "Encode: a systematic grid over all 32 flag combinations x 256 MSIN bytes x 2 storage modes plus free random messages, crate bytes compared byte for byte with the reference encoder. Decode: hostile byte strings (canonical, wire-level dialect, mutated, arbitrary, > 64 KiB) judged in both storage modes against the reference decoder's verdict (fields + consumed length / incomplete / reject). Thorough adds a coverage-guided libFuzzer campaign with the same oracle in the target.",
@@ -18,10 +23,10 @@ CHECKS = {
          "On hostile inputs biased to parseable-but-inconsistent messages, every Ok result of dlt_message under 9 filter configurations and of dlt_consume_msg is compared with the consumption computed from the raw bytes only (first pattern offset + 16 + big-endian LEN); all filters must leave the same remainder; iteration must terminate within len/4+2 steps.",
          "Trusts the raw-byte computation of the declared message end (pattern search, LEN at offset 2, HTYP flags).", "DESIGN.md 4/C04"),
  "C05": ("exploration", "property-based testing with per-case exhaustive enumeration of all cut positions",
-         "For generated well-formed messages every proper prefix (all cut positions for messages <= 4 KiB; field-map-guided cuts beyond) must be reported IncompleteParse with a hint between 1 and the number of missing bytes, by the parser and by the skipper. 40k messages / 3M prefixes quick, 800k messages thorough.",
+         "For generated well-formed messages every proper prefix (all cut positions for messages <= 4 KiB; field-map-guided cuts beyond) must be reported IncompleteParse with a hint between 1 and the number of missing bytes, by the parser and by the skipper. 150k messages quick, 2M messages thorough (each with all its prefixes).",
          "Trusts the generator of well-formed messages; cut positions of messages > 4 KiB are sampled along the field map, not exhaustive.", "DESIGN.md 4/C05"),
  "C06": ("exploration", "property-based testing against a naive search reference + junk-prefix metamorphic relation",
-         "The pattern search is compared with a naive first-occurrence search on arbitrary / low-entropy / 70 KB inputs with planted patterns; junk ++ message ++ suffix must parse like message ++ suffix; streams with junk between messages must be recovered completely and in order.",
+         "The pattern search is compared with a naive first-occurrence search on arbitrary / low-entropy / 70 KB inputs with planted patterns; junk ++ message ++ suffix must parse like message ++ suffix, without a filter and under 7 filter configurations (kept and filtered-out results alike); streams with junk between messages must be recovered completely and in order (with a filter: one result per message).",
          "Junk is pattern-free by construction (scrubbed); relies on 'DLT\\x01' having no border.", "DESIGN.md 4/C06"),
  "C07": ("exploration", "property-based testing over generated read schedules and fault placements against a slice-cutting reference",
          "The harness owns the byte source: generated sequences of short reads and ErrorKind::Interrupted plus systematic constant-chunk schedules (1..64, with/without interruption before every read) over well-formed, truncated, hostile and hostile-length streams; the outcome sequence of read_message and next_message_slice must equal cutting the stream at the declared lengths and parsing each piece; no panic, bounded number of calls.",
@@ -30,16 +35,16 @@ CHECKS = {
          "Generated sequences of Poll::Pending / Poll::Ready(k) (source wakes before Pending) plus systematic schedules; the async reader is polled with a poll budget and its outcome sequence (messages by bits, error class, end) must equal the blocking reader's on an always-ready source.",
          "The blocking reader is the reference (C07 decides its own conformance); real reactor timing is out of scope; a poll budget, not wall-clock, decides 'never completes'.", "DESIGN.md 4/C08"),
  "C09": ("exploration", "property-based testing against an independent decision procedure written from the statement",
-         "Filter configurations (every criterion absent/present, all level numbers, empty/duplicate/hitting/missing id lists, counts around the set sizes, both From conversions) x well-formed messages x suffix; the drop/keep decision, the FilteredOut payload length, the remainder and the equality of kept messages with the unfiltered parse are checked, also through read_message.",
+         "Filter configurations (every criterion absent/present, all level numbers, empty/duplicate/hitting/missing id lists, near-miss ids such as ids longer than the 4-byte wire field, counts around the set sizes, both From conversions) x well-formed messages x suffix; the drop/keep decision, the FilteredOut payload length, the remainder and the equality of kept messages with the unfiltered parse are checked, also through read_message.",
          "Trusts the decision procedure in harness/src/props/c09.rs (transcribed from the statement).", "DESIGN.md 4/C09"),
  "C10": ("exploration", "model-based property testing: independent tally + merge histories generated as operation vectors",
          "Streams of 0..40 messages over a small id pool; a recording collector must see each message exactly once with its decoded headers; StatisticInfoCollector must equal an independent tally; merging the parts of a split stream along a generated history (permutation + (receiver, donor) merge sequence) must equal the statistics of the whole.",
          "Trusts the tally in harness/src/props/c10.rs; histories are sampled.", "DESIGN.md 4/C10"),
  "C11": ("exploration", "property-based testing: independent model assembly + layout metamorphic relation",
-         "Generated abstract FIBEX models rendered under two independent layouts (1..4 files, element and child order, prefixes, reference style, noise); gather_fibex_data must equal the independent assembly and both layouts must load equally; extract_metadata lookups are checked for present and absent ids.",
+         "Generated abstract FIBEX models rendered under two independent layouts (1..4 files listed in an order that differs from the lexicographic path order, element and child order, prefixes, reference style, noise; ids also longer than 4 bytes / multi-byte); gather_fibex_data must equal the independent assembly and both layouts must load equally; extract_metadata lookups are checked for present and absent ids.",
          "Document shapes the statement is silent about are not generated (listed in the evidence assumptions); trusts the vocabulary table in harness/src/gen/fibex.rs.", "DESIGN.md 4/C11"),
  "C12": ("fault_enumeration", "fault injection with per-document exhaustive truncation, element/attribute deletion and byte corruption, judged in a child process by consumed CPU time",
-         "Every truncation offset of both sample files and of generated document sets, plus sampled subtree / tag / attribute deletions, byte corruptions, duplicated slices, damaged members of multi-file sets and special path sets; each load runs in an evaluator child and must answer model/refused within 10 s of CPU; panic, child death or budget exhaustion is a violation. Thorough adds a libFuzzer campaign on document bytes whose hang candidates are re-judged by the same evaluator.",
+         "Every truncation offset of both sample files and of generated document sets; every document that is a sequence of at most 4 (thorough: 5) of 30 markup tokens (bounded-exhaustive); sampled subtree / tag / attribute deletions, byte corruptions, duplicated slices, combinations of up to three damages, 'element-level damage, then every truncation offset behind it', damaged members of multi-file sets and special path sets; each load runs in an evaluator child and must answer model/refused within 10 s of CPU; panic, child death or budget exhaustion is a violation. Thorough adds a libFuzzer campaign on document bytes whose hang candidates are re-judged by the same evaluator.",
          "Non-termination is decided by a CPU-time budget (10^4 x the normal cost), not proved; damage other than truncation is sampled.", "DESIGN.md 2.5, 4/C12"),
  "C13": ("exploration", "property-based testing against a reference packing, with exhaustive truncation per case (+ libFuzzer in the thorough tier)",
          "Lists of supported signal types with values are packed by a reference encoder in the stated byte order; exact and exact+trailing payloads must decode to one bit-equal argument per type carrying the given type info, every proper truncation and a non-UTF-8 string must be refused, fixed-point kinds must not panic.",
@@ -51,7 +56,7 @@ CHECKS = {
          "Generated message configurations (every payload kind, optional fields, sizes up to the 16-bit limit, 10% non-representable) are built with Message::new; payload_length, byte_len, verbose flag and NOAR are compared with the reference encoding and the payload kind, representable ones must parse back to themselves, add_storage_header must prepend exactly the reference storage header; valid() is checked on mismatched typed kinds.",
          "Parse-back is asserted only for representable configurations; the clock value of add_storage_header(None) is not asserted.", "DESIGN.md 4/C15"),
  "C16": ("exploration", "property-based testing + libFuzzer: parse -> write -> parse fixpoint on hostile inputs",
-         "Whenever the parser returns a message from a hostile input and its re-serialisation has the declared length, re-parsing must give the identical message with nothing left and serialising again the same bytes; the evidence counts how many inputs were non-canonical (the parser normalised something).",
+         "Whenever the parser returns a message from a hostile input and its re-serialisation has the length its own (emitted) length field declares, re-parsing must give the identical message with nothing left and serialising again the same bytes; the evidence counts how many inputs were non-canonical (the parser normalised something).",
          "Inputs outside the statement's precondition (re-serialisation of another length) are only counted.", "DESIGN.md 4/C16"),
  "C19": ("exploration", "bounded-exhaustive enumeration over a small alphabet + property-based testing against a reference extraction function",
          "All byte strings of length 0..6 over {00,'a',C3,A9,E2,82,AC,FF} x sizes 0..7 are enumerated (2.4 M calls, exhaustive for that space), then random buffers/sizes up to 65535 and huge sizes, and messages whose four id fields are arbitrary bytes; the result must be the reference extraction (cut at first NUL inside the size, longest valid UTF-8 prefix, consume exactly the size; incomplete with hint <= shortfall otherwise).",
@@ -81,7 +86,7 @@ manifest = {
     },
     "engines": [
         {"name": "dltverif", "path": "harness", "serves_properties": sorted(CHECKS.keys()),
-         "kind_free_text": "Rust crate: proptest strategies + seeded 16-worker driver with shrinking, bounded-exhaustive enumerators, independent reference DLT codec, evidence/replay writer"},
+         "kind_free_text": "Rust crate: proptest strategies + seeded 16-worker driver with shrinking, bounded-exhaustive enumerators, independent reference DLT codec, evidence/replay writer; libFuzzer targets (fuzz/: bytes, fibex, args, strat) call the same oracles"},
     ],
     "checks": [],
     "notes": "Driver: ./check <Cxx> <quick|thorough>; replay: ./check <Cxx> --replay <file>. Exit 0 held / 1 VIOLATION / 2 inconclusive. VERIF_SEED selects the PRNG seed. Findings: KNOWN_FINDINGS.txt.",
@@ -89,6 +94,9 @@ manifest = {
 }
 for pid in sorted(CHECKS):
     cat, tech, text, note, ref = CHECKS[pid]
+    if pid in STRAT:
+        tech += STRAT_TECH
+        text += STRAT_TEXT
     manifest["checks"].append({
         "property_id": pid,
         "quick_cmd": "./check %s quick" % pid,
